@@ -385,10 +385,21 @@ def _stree():
     return st.recursive(leaf, ext, max_leaves=8)
 
 
+# machine and player variables also take values of other types (an ordering comparison or arithmetic with them is a
+# type error -> the template's default; the subscription must survive that)
+FREE_VARS = [v for v in VARS if v.startswith("machine.mv_") or v.startswith("current_player.")]
+# (player variables are int/float/str: Player.__setattr__ posts player_<var> for these types only; machine variables
+# may also be None)
+_odd = st.sampled_from(["s", "s", 1.5])
+MACHINE_VARS = [v for v in VARS if v.startswith("machine.mv_")]
+_change = st.sampled_from([0, 0, 0, 1, 2]).flatmap(lambda k: [st.tuples(st.sampled_from(VARS), sval),
+                                                              st.tuples(st.sampled_from(FREE_VARS), _odd),
+                                                              st.tuples(st.sampled_from(MACHINE_VARS), st.none())][k])
 case_sub = st.fixed_dictionaries({
     "tree": _stree(),
-    "init": st.fixed_dictionaries({v: st.integers(0, 2) for v in VARS}),
-    "changes": st.lists(st.tuples(st.sampled_from(VARS), sval).map(list), min_size=1, max_size=8),
+    "init": st.fixed_dictionaries({v: (st.sampled_from([0, 1, 2, 0, 1, 2, "s", 1.5]) if v in FREE_VARS
+                                       else st.integers(0, 2)) for v in VARS}),
+    "changes": st.lists(_change.map(list), min_size=1, max_size=8),
     "ag": st.lists(st.sampled_from(["ag_select", "ag_rotate", "ag_rotate"]), max_size=3),
 })
 
@@ -500,8 +511,92 @@ def check_sub(case):
     return Result(vio or None, sorted(classes) or ["plain"], bool(classes & {"conditional/boolean", ">=2-changes-of-read-vars"}))
 
 
+# ---- a subscriber that outlives modes and balls: device attributes that come back from the player ----------------
+DEV_TEMPLATES = ["device.state_machines.sm.state", "device.counters.cp.value", "device.shots.sh.state_name",
+                 "device.achievements.ach1.state", "device.achievement_groups.ag.enabled", "device.timers.tm.ticks",
+                 "device.counters.cp.enabled", "device.shots.sh.state",
+                 "device.counters.cp.value + (1 if device.state_machines.sm.state == 'done' else 0)"]
+case_devattr = st.fixed_dictionaries({
+    "players": st.integers(1, 2),
+    "templates": st.lists(st.sampled_from(DEV_TEMPLATES), min_size=1, max_size=3, unique=True),
+    "ops": st.lists(st.sampled_from(["sm_go", "sm_go", "sm_back", "cp_hit", "hit_sh", "drain", "drain", "advance", "ach1_start",
+                                     "ach1_complete", "tg_stop", "tg_start"]),
+                    min_size=2, max_size=14),
+})
+
+
+def check_devattr(case):
+    """A long-lived subscriber per template: whenever a fresh evaluation differs from what the subscriber was last told,
+    its future must be done (it is then told the new value and subscribes again)."""
+    vio = []
+    classes = set()
+    with Rig("templates", base="fakegame") as rig:
+        m = rig.machine
+        rig.case.start_game()
+        rig.advance(0.1)
+        for _ in range(case["players"] - 1):
+            rig.case.add_player()
+        rig.advance(0.1)
+        pm = m.placeholder_manager
+        subs = []
+        for src in case["templates"]:
+            tpl = pm.build_raw_template(src, "DEFAULT")
+            val, fut = tpl.evaluate_and_subscribe({})
+            subs.append({"src": src, "tpl": tpl, "told": val, "fut": fut, "history": [val]})
+
+        def loaded():
+            return m.modes["tg"].active and not m.modes["tg"].stopping
+
+        def audit(after):
+            for sub in subs:
+                fresh = sub["tpl"].evaluate({})
+                if sub["fut"].done():
+                    sub["told"], sub["fut"] = sub["tpl"].evaluate_and_subscribe({})
+                    sub["history"].append(sub["told"])
+                    classes.add("notified")
+                    fresh = sub["told"]
+                if not loaded():
+                    continue    # the mode is not running: its devices have no state, the attributes no value (out of domain)
+                if not same(fresh, sub["told"]):
+                    vio.append(violation("stale-device-attribute:" + sub["src"].split(".")[1],
+                                         "after %s a fresh evaluation of %r gives %r but the subscriber was last told %r and its "
+                                         "subscription has not fired (values it was told so far: %r)" % (
+                                             after, sub["src"], fresh, sub["told"], sub["history"])))
+                    return False
+            return True
+        done_ops = []
+        for op in case["ops"]:
+            if m.game is None:
+                break
+            done_ops.append(op)
+            if op == "drain":
+                ball, num = m.game.player.ball, m.game.player.number
+                m.events.post_relay("ball_drain", balls=m.game.balls_in_play)
+                m.playfield.balls = 0
+                m.playfield.available_balls = 0
+                rig.advance(0.5)
+                if m.game is not None and (m.game.player.ball, m.game.player.number) != (ball, num):
+                    classes.add("next ball" if m.game.player.number == num else "next player")
+            elif op == "advance":
+                rig.advance(0.2)
+            else:
+                m.events.post(op)
+                rig.advance(0.01)
+            if m.game is None:
+                break       # the game is over: attributes kept per player have no value any more (outside the domain)
+            if not audit("%r" % (done_ops,)):
+                break
+        if any(len(sub["history"]) >= 4 for sub in subs):
+            classes.add(">=3 notifications")
+        exc = rig.exception_summaries()
+    if exc and not vio:
+        vio.append(violation("loop-exception", "exception reached the loop: %s" % exc[:2]))
+    return Result(vio or None, sorted(classes) or ["plain"], bool(classes & {"next ball", "next player"}))
+
+
 SUBCHECKS = [
     SubCheck("evaluate", lambda: case_eval, check_eval, quick=8000, thorough=300000, procs_quick=6,
              fuzz={"quick": 3000, "thorough": 200000, "modules": ['mpf.core.placeholder_manager']}),
+    SubCheck("devattr", lambda: case_devattr, check_devattr, quick=600, thorough=10000, procs_quick=4),
     SubCheck("subscribe", lambda: case_sub, check_sub, quick=800, thorough=10000, procs_quick=4),
 ]
